@@ -307,8 +307,9 @@ pub fn judge(sys: &Sys, mat: &Mat, z: &[Fq], native_rejects: Option<&str>) -> Ve
 /// deterministic choice of forging targets: (column, new value) pairs among the witnesses allocated
 /// before the materialised observables. Always: every non-boolean witness negated (sign slips are the
 /// characteristic forgery in this library: encodings, square roots and coordinates are all defined up
-/// to a sign that a gadget must pin). Then, up to `max` more: boolean witnesses flipped and non-boolean
-/// ones set to v+1, 0, 1 -- all of them when they fit, a seeded sample otherwise.
+/// to a sign that a gadget must pin) and zeroed (an unpinned factor collapses whatever it multiplies).
+/// Then, up to `max` more: boolean witnesses flipped and non-boolean ones set to v+1 and 1 -- all of
+/// them when they fit, a seeded sample otherwise.
 pub fn targets(sys: &Sys, mat: &Mat, seed: u64, max: usize) -> Vec<(usize, Fq)> {
     let lo = sys.ninst;
     let hi = sys.col_of_witness(mat.first_wit);
@@ -331,11 +332,11 @@ pub fn targets(sys: &Sys, mat: &Mat, seed: u64, max: usize) -> Vec<(usize, Fq)> 
         if is_bit(col) {
             rest.push((col, Fq::ONE - cur));
         } else {
-            if out.len() < 4000 {
+            if out.len() < 8000 {
                 out.push((col, -cur));
+                out.push((col, Fq::ZERO));
             }
             rest.push((col, cur + Fq::ONE));
-            rest.push((col, Fq::ZERO));
             rest.push((col, Fq::ONE));
         }
     }
